@@ -12,3 +12,15 @@ func (f *FrozenFunds) VerifLoadedHeights() []uint64 {
 	}
 	return res
 }
+
+// VerifDeleted reports whether the funds of a height were consumed in the current block
+// (the cached model stays readable until commit).
+func (f *FrozenFunds) VerifDeleted(height uint64) bool {
+	m := f.getFromMap(height)
+	if m == nil {
+		return false
+	}
+	m.lock.RLock()
+	defer m.lock.RUnlock()
+	return m.deleted
+}
